@@ -66,7 +66,7 @@ func modFamily(th bool) []*pg.Program {
 	feat("surround", func(p *pg.Program) { p.F.Surround = true })
 	// hand-written inputs (compiled in both modes, not executed)
 	for _, p := range specialFamily() {
-		if p.Raw != "" && (strings.Contains(p.Fam, "types-spelled-differently") || strings.Contains(p.Fam, "results-same-type-twice") || strings.Contains(p.Fam, "very-long-line")) {
+		if p.Raw != "" && (strings.Contains(p.Fam, "types-spelled-differently") || strings.Contains(p.Fam, "results-same-type-twice") || strings.Contains(p.Fam, "very-long-line") || (strings.Contains(p.Fam, "indirect-type") && !strings.Contains(p.Fam, "parallel"))) {
 			q := *p
 			q.Fam = "MOD:raw:" + strings.TrimPrefix(p.Fam, "S:")
 			ps = append(ps, &q)
